@@ -2,6 +2,7 @@ import flowpaths.stdag as stdag
 import networkx as nx
 from collections import deque
 from fractions import Fraction
+import numpy
 import math
 import flowpaths.utils as utils
 
@@ -119,7 +120,14 @@ def compute_inexact_flow_decomp_safe_paths(
     if all(isinstance(value, int) for value in bound_values):
         excess_tolerance = 0
     else:
-        excess_tolerance = G.number_of_edges() * Fraction(math.ulp(float(max(abs(value) for value in bound_values))))
+        # (a numpy float narrower than the Python float it converts to is coarser: np.float32(0.004) is off by up to 2**29 units in the
+        # last place of the float it becomes, so the unit is taken from the spacing of such a value in its own type)
+        narrow_spacings = [
+            Fraction(float(numpy.spacing(abs(G.edges[u, v][attr]))))
+            for u, v in G.edges() for attr in (lowerbound_attr, upperbound_attr)
+            if attr in G.edges[u, v] and getattr(getattr(G.edges[u, v][attr], "dtype", None), "kind", "") == "f"
+        ]
+        excess_tolerance = G.number_of_edges() * max([Fraction(math.ulp(float(max(abs(value) for value in bound_values))))] + narrow_spacings)
 
     # The algorithm follows a two pointer approach computing inexact excess flow
     # See https://doi.org/10.1007/978-3-031-04749-7_11 and https://doi.org/10.4230/LIPIcs.SEA.2024.14
